@@ -507,7 +507,15 @@ func runC19(c *mon.Ctx) {
 			if line[0] == '-' {
 				lo = 1
 			}
-			if r.Bool() && sp > lo {
+			if r.P(1, 8) {
+				// a plus sign in front: the encoder never writes one ("%d"), so the line is not one of the protocol
+				if line[0] == '-' || r.Bool() {
+					line = append([]byte(nil), line...)
+					line[0] = '+'
+				} else {
+					line = append([]byte{'+'}, line...)
+				}
+			} else if r.Bool() && sp > lo {
 				p := lo + r.Intn(sp-lo)
 				line = append([]byte(nil), line...)
 				line[p] = bad
@@ -553,6 +561,11 @@ func runC19(c *mon.Ctx) {
 			}
 			c.Count("mutants_rejected", 1)
 			if !expectB {
+				// the last line of the stream lacks its terminator: the error must not be the plain io.EOF that a clean
+				// end of the stream gives, or the caller cannot tell a lost record from the end
+				if e2 == io.EOF {
+					c.Violation("mutant-looks-like-clean-end:"+kind, fmt.Sprintf("the stream ends inside the line %q (no terminator): ReadAndConvert returns plain io.EOF, exactly what it returns at a clean end of the stream; the partial record is dropped without an error of its own", strings.ToValidUTF8(string(line), "?")), in, "io.ErrUnexpectedEOF or another error", "io.EOF")
+				}
 				return
 			}
 			// the statement allows more than one error for one malformed line, but the first record
